@@ -290,6 +290,17 @@ fn shard(seed: u64, shard: u64, n: u64) -> Tally {
         t.eval();
         if !prec.outcome.is_ok() {
             t.count("parent_not_accepted");
+            // the parent is a conformant request signed over the reference header block (names sorted, values joined in
+            // arrival order): refusing it is a header-canonicalisation failure unless the reference model is silent
+            if let Some(j) = judge(&parent, &prec) {
+                if let Agreement::Mismatch {
+                    detail,
+                    known,
+                } = &j.agreement
+                {
+                    t.violate(violation("header-canon", "parent-refused", format!("conformant parent with signed headers {:?} refused: {}", l.signed, detail), &parent, *known));
+                }
+            }
             continue;
         }
         t.count("parents");
